@@ -282,6 +282,12 @@ func (s *Service) validateAttestationData(_ context.Context,
 	if attestationData.Target.Epoch > dutyEpoch {
 		return fmt.Errorf("attestation request for slot %d returned target epoch %d greater than current epoch %d", duty.Slot(), attestationData.Target.Epoch, phase0.Epoch(uint64(duty.Slot())/s.slotsPerEpoch))
 	}
+	if attestationData.Target.Epoch < dutyEpoch {
+		// The target of an attestation is the checkpoint of the epoch of the attestation's slot, so
+		// a lower target epoch is not a valid attestation for this duty; signing it could also
+		// conflict with the attestation already made for that earlier epoch.
+		return fmt.Errorf("attestation request for slot %d returned target epoch %d less than current epoch %d", duty.Slot(), attestationData.Target.Epoch, dutyEpoch)
+	}
 
 	return nil
 }
